@@ -221,6 +221,7 @@ def reproduce(ctx, sc, inv, attempt=0):
 TWIN_INVS = {
     "C01": {"TwinSuccessComplete", "TwinEdgesResolvable", "TwinRootTagged", "TwinReturnedRoot", "TwinBothReturned"},
     "C02": {"TwinClosedAtPush", "TwinPushAfterSucc", "TwinClosedFinal", "TwinNoSpuriousError", "TwinNoHang"},
+    "C04": {"TwinPreThenPost", "TwinSkippedAlone"},
 }
 
 
